@@ -26,6 +26,8 @@ HEADER = (
 
 POOL = [
     ["none"], ["bool", True], ["bool", False], ["int", 0], ["int", 1], ["int", -1], ["float", 1.5], ["complex", 0.0, 1.0],
+    ["isub", 3], ["fsub", 0.5], ["fe", "half"], ["class", "ISub"], ["class", "FSub"], ["class", "CSub"], ["class", "TSub"],
+    ["tuple", 899, [["fsub", 0.5]]], ["list", 898, [["fe", "one"]]],
     ["str", ""], ["str", "a"], ["bytes", "a"], ["ie", "x"], ["e", "a"], ["inst", "A", 0], ["inst", "B", 0], ["inst", "C", 0],
     ["class", "int"], ["class", "bool"], ["class", "A"], ["class", "B"], ["class", "str"],
     ["tuple", 900, []], ["tuple", 901, [["int", 1]]], ["tuple", 902, [["int", 1], ["str", "a"]]], ["tuple", 903, [["str", "a"]]],
@@ -49,7 +51,7 @@ POOL = [
 ]
 
 # enum classes as *types* are out of fragment (their generic bases through EnumMeta are not modelled); enum members stay
-CLS = ["int", "str", "float", "bool", "object", "A", "B", "C", "NoneType", "bytes", "complex", "type"]
+CLS = ["int", "str", "float", "bool", "object", "A", "B", "C", "NoneType", "bytes", "complex", "type", "ISub", "FSub", "CSub", "SSub", "TSub", "LSub", "DSub"]
 BARE = ["list", "tuple", "dict", "set", "frozenset"]
 GEN1 = ["list", "set", "frozenset", "tuple", "Sequence", "Iterable", "Collection"]
 GEN2 = ["dict", "Mapping"]
@@ -66,8 +68,23 @@ def gen_lit(rng):
     return ["known", rng.choice([p for p in POOL if p[0] in ("tuple", "list", "set", "frozenset", "dict")])]
 
 
+ALIASES = {}  # alias table of the case being generated / evaluated
+
+
+def gen_aliases(rng):
+    """three PEP 695-style aliases per case: two with the same name (as class-scoped `type Item = ...`
+    in two classes of one module) and one generic alias `type L[T] = C[T]`"""
+    a0 = gen_static(rng, 1)
+    a1 = gen_static(rng, 1)
+    gen = rng.choice([["generic", "list", [["tv", 0, None, []]]], ["generic", "dict", [["typed", "str"], ["tv", 0, None, []]]],
+                      ["seq", "tuple", [[False, ["tv", 0, None, []]], [False, ["typed", "int"]]]],
+                      ["unite", [["tv", 0, None, []], ["known", ["none"]]]]])
+    return {"0": ["Item", a0, []], "1": ["Item", a1, []], "2": ["L", gen, [0]]}
+
+
 def gen_static(rng, depth, any_ok=False):
     r = rng.random()
+
     if depth <= 0 or r < 0.3:
         r2 = rng.random()
         if r2 < 0.05:
@@ -90,24 +107,32 @@ def gen_static(rng, depth, any_ok=False):
     if r < 0.70:
         return ["seq", "tuple", [[rng.random() < 0.07, t()] for _ in range(rng.randrange(0, 4))]]
     if r < 0.76:
-        return ["subclass", ["typed", rng.choice(CLS[:8])], False]
+        return ["subclass", ["typed", rng.choice(CLS[:8] + ["complex", "ISub", "FSub", "tuple"])], False]
     if r < 0.81:
         return ["annot", t(), [rng.randrange(1, 3)]]
     return ["unite", [t() for _ in range(rng.randrange(2, 4))]]
 
 
-SUBS = {"int": ["bool", "int"], "float": ["int", "bool", "float"], "complex": ["float", "int"], "object": CLS, "A": ["B", "A"],
+SUBS = {"int": ["bool", "int", "ISub"], "float": ["int", "bool", "float", "FSub", "ISub"], "complex": ["float", "int", "FSub", "CSub", "ISub"], "tuple": ["TSub"], "list": ["LSub"], "dict": ["DSub"], "object": CLS, "A": ["B", "A"],
         "str": ["str", "LiteralString"], "Sequence": ["list", "tuple", "Sequence"], "Iterable": ["list", "set", "Sequence", "frozenset", "tuple"],
         "Collection": ["list", "set", "Sequence"], "Mapping": ["dict"]}
-LITS_OF = {"int": [["int", 1], ["bool", True], ["ie", "x"]], "str": [["str", "a"]], "float": [["float", 1.5], ["int", 1]],
+LITS_OF = {"int": [["int", 1], ["bool", True], ["ie", "x"], ["isub", 3]], "str": [["str", "a"]], "float": [["float", 1.5], ["int", 1], ["fsub", 0.5], ["fe", "half"]],
+           "ISub": [["isub", 3]], "FSub": [["fsub", 0.5]],
            "bool": [["bool", False]], "A": [["inst", "A", 0], ["inst", "B", 0]], "B": [["inst", "B", 0]], "NoneType": [["none"]],
            "object": [["int", 1], ["str", "a"], ["none"]], "E": [["e", "a"]], "IE": [["ie", "x"]], "bytes": [["bytes", "a"]],
-           "complex": [["complex", 0.0, 1.0], ["int", 1]], "C": [["inst", "C", 0]], "type": [["class", "int"]]}
+           "complex": [["complex", 0.0, 1.0], ["int", 1], ["fsub", 0.5], ["fe", "one"], ["isub", 3]], "C": [["inst", "C", 0]], "type": [["class", "int"]]}
 
 
 def narrow(s, rng):
     """a value that tends to be assignable to s"""
     k = s[0]
+    if k == "alias":
+        r = rng.random()
+        if r < 0.4:
+            return s
+        if r < 0.7:  # the same-named / same generic alias with other arguments
+            return ["alias", {0: 1, 1: 0, 2: 2}[s[1]], [narrow(x, rng) if rng.random() < 0.5 else gen_static(rng, 1) for x in s[2]]]
+        return ["alias", s[1], [narrow(x, rng) for x in s[2]]]
     if k == "literalstring":
         return rng.choice([["typed", "str"], ["known", ["str", "a"]], ["literalstring"]])
     if k == "typed":
@@ -125,7 +150,8 @@ def narrow(s, rng):
             return narrow(rng.choice(s[1]), rng)
         return ["unite", [narrow(x, rng) for x in s[1] if rng.random() < 0.8]]
     if k == "generic":
-        c = rng.choice(SUBS.get(s[1], [s[1]])) if rng.random() < 0.4 else s[1]
+        gsubs = [x for x in SUBS.get(s[1], [s[1]]) if x not in ("TSub", "LSub", "DSub")] or [s[1]]  # no generics over user subclasses
+        c = rng.choice(gsubs) if rng.random() < 0.4 else s[1]
         if rng.random() < 0.08:
             return ["typed", c]
         if len(s[2]) == 1 and rng.random() < 0.25:
@@ -173,6 +199,8 @@ def gen_member(rng, s, depth=3):
                 "frozenset": ["frozenset", []]}.get(c)
     if k == "literalstring":
         return ["str", "a"]
+    if k == "alias":
+        return None  # the fixed pool and the other operands' members cover aliases
     if k == "known":
         return s[1]
     if k == "newtype":
@@ -192,8 +220,8 @@ def gen_member(rng, s, depth=3):
     if k == "subclass":
         inner = s[1]
         if inner[0] == "typed" and inner[1] in ("int", "float", "bool", "str", "A", "B", "C", "object", "complex"):
-            return ["class", rng.choice({"int": ["int", "bool"], "float": ["float"], "A": ["A", "B"], "object": ["int", "A", "str"],
-                                         "complex": ["complex"]}.get(inner[1], [inner[1]]))]
+            return ["class", rng.choice({"int": ["int", "bool", "ISub"], "float": ["float", "FSub", "int"], "A": ["A", "B"], "object": ["int", "A", "str"],
+                                         "complex": ["complex", "CSub", "FSub", "ISub"]}.get(inner[1], [inner[1]]))]
         return None
     if depth <= 0:
         return None
@@ -256,12 +284,24 @@ def run(tier: str, replay: str | None = None):
         for _ in range(n):
             any_ok = rng.random() < 0.2
             dep = 4 if rng.random() < 0.25 else 3
+            ALIASES.clear()
+            ALIASES.update({})
+            aliases = gen_aliases(rng)
+            ALIASES.update(aliases)
             a = gen_static(rng, dep, any_ok)
             r = rng.random()
             b = narrow(a, rng) if r < 0.55 else (a if r < 0.62 else gen_static(rng, dep, any_ok))
             c = narrow(a, rng) if rng.random() < 0.5 else gen_static(rng, 2, any_ok)
-            a, b, c = G.fix_labels([a, b, c])
-            cases.append({"a": a, "b": b, "c": c})
+            if rng.random() < 0.07:
+                # type aliases, at the top of A and B only (PEP 695: two same-named aliases of one module, one
+                # generic alias); C stays alias-free and the union laws are not evaluated for these cases
+                i = rng.randrange(3)
+                a = ["alias", i, [gen_static(rng, 1)] if i == 2 else []]
+                r = rng.random()
+                j = i if r < 0.35 else {0: 1, 1: 0, 2: 2}[i]
+                b = ["alias", j, ([narrow(a[2][0], rng) if rng.random() < 0.5 else gen_static(rng, 1)] if j == 2 else [])] if r < 0.8 else gen_static(rng, 2)
+            a, b, c, aliases = G.fix_labels([a, b, c, aliases])
+            cases.append({"a": a, "b": b, "c": c, "aliases": aliases})
 
     ctx = Checker()
     pool_objs = [G.build_obj(p, {}) for p in POOL]
@@ -279,7 +319,7 @@ def run(tier: str, replay: str | None = None):
     OBJ, ANY = V.TypedValue(object), V.AnyValue(V.AnySource.explicit)
     for case in cases:
         try:
-            cache = {}
+            cache = {"__aliases__": case.get("aliases", {})}
             A, B, C = (G.build(case[k], cache) for k in ("a", "b", "c"))
             cx = Ctx()
             ta, tb, tc = enc_val(A, cx), enc_val(B, cx), enc_val(C, cx)
@@ -293,9 +333,10 @@ def run(tier: str, replay: str | None = None):
                 "any_both_ways": acc(A, ANY) and acc(ANY, B)}
         if anyfree:
             laws["object_top"] = acc(OBJ, B) and acc(OBJ, B, True)
-        bc = V.unite_values(B, C)
-        laws["union_right_iff_all"] = acc(A, bc) == (obs["ab"] and obs["ac"])
-        laws["union_left_if_some"] = (not obs["ab"]) or acc(V.unite_values(A, C), B)
+        if not G_has(case, "alias"):  # same-named aliases compare equal (name and module only), so unite_values merges them
+            bc = V.unite_values(B, C)
+            laws["union_right_iff_all"] = acc(A, bc) == (obs["ab"] and obs["ac"])
+            laws["union_left_if_some"] = (not obs["ab"]) or acc(V.unite_values(A, C), B)
         # objects derived from B (and a few from A and C): members by construction
         extra = case.get("extra_pool")
         if extra is None:
@@ -319,6 +360,12 @@ def run(tier: str, replay: str | None = None):
         hist["kinds_b"][case["b"][0]] = hist["kinds_b"].get(case["b"][0], 0) + 1
 
     model_ok = proof is not None and not any("build failed" in b or "forbidden" in b for b in proof.broken)
+    if not model_ok and gen is not None:
+        # a proof (e.g. a table obligation) no longer checks: the model itself may still build, so that the
+        # correspondence and the oracles keep their reference and can produce a failing input
+        for name, text in gen.items():
+            lib.write_if_changed(lib.GEN / name, text)
+        model_ok = lib.coq_make(["theories/Core/C04Run.vo", "theories/Gen/ClassTable.vo"])[0]
     if model_ok:
         try:
             results = lib.coq_eval(HEADER + f"Definition pool : list obj := {pool_term}.\n", [r["term"] for r in rows], name="c04",
@@ -334,11 +381,15 @@ def run(tier: str, replay: str | None = None):
     findings = {f["id"]: f for f in lib.load_known_findings(PROP)["findings"]}
     failing, corr, validated, distinct, n_sound_checked, lenient = [], [], 0, set(), 0, 0
     n_b_members = n_b_without_member = n_refl_guard = n_strict = n_accept_anyfree = 0
+    non_strict = {}
     for r in rows:
         bad = [k for k, v in r["laws"].items() if not v]
         witness = None
         if "model" in r:
-            mism = [k for k in r["obs"] if r["obs"][k] != r["model"][k]]
+            # alias cases: the term is the expansion of the alias; pyanalyze does not expand an alias on the right
+            # of a union (incompleteness, see design.d/C04.md), so only the soundness oracle applies to them
+            alias_case = G_has(r["case"], "alias")
+            mism = [] if alias_case else [k for k in r["obs"] if r["obs"][k] != r["model"][k]]
             if mism:
                 corr.append((r, mism))
             else:
@@ -347,11 +398,14 @@ def run(tier: str, replay: str | None = None):
             n_refl_guard += bool(r["clauses"]["refl_ok"])
             # the decidable guard of C04_strict_sound: a strict derivation implies acceptance (theorem
             # C04_strict_implies_accept + correspondence), so the implementation must accept
-            if r["clauses"]["strict"]:
+            if r["clauses"]["strict"] and not alias_case:
                 n_strict += 1
                 if not r["obs"]["ab"]:
                     bad.append("strict_derivation_rejected")
             n_accept_anyfree += bool(r["obs"]["ab"] and not r["clauses"]["has_any"])
+            if r["obs"]["ab"] and not r["clauses"]["has_any"] and not r["clauses"]["strict"]:
+                why = non_strict_reason(r["case"], r["clauses"])
+                non_strict[why] = non_strict.get(why, 0) + 1
             if r["clauses"]["refl_ok"] and not (r["obs"]["aa"] and r["obs"]["aa_x"]) and "refl" not in bad:
                 bad.append("refl")  # the theorem C04_reflexive predicts acceptance
             if r["obs"]["ab"] and not r["clauses"]["has_any"]:
@@ -373,9 +427,10 @@ def run(tier: str, replay: str | None = None):
             hist["laws_failed"][k] = hist["laws_failed"].get(k, 0) + 1
         if bad:
             attributed = False
-            if "model" in r and not [k for k in r["obs"] if r["obs"][k] != r["model"][k]]:
+            # (alias cases have no verdict correspondence; the NewType finding is still recognised on the expansion)
+            if "model" in r and (G_has(r["case"], "alias") or not [k for k in r["obs"] if r["obs"][k] != r["model"][k]]):
                 cl = r["clauses"]
-                for fid, cond in (("C04-literal-dedup-unsound", set(bad) <= {"sound"} and cl["literal_dedup"] and not cl["strict"]),
+                for fid, cond in (
                                   ("C04-newtype-accepts-supertype", set(bad) <= {"sound"} and cl["newtype"] and not cl["strict"]),
                                   ):
                     if cond and fid in findings:
@@ -410,7 +465,7 @@ def run(tier: str, replay: str | None = None):
         samples=[r["case"] for r in rows[:3]],
         traces_validated_against_impl=validated,
         input_distribution={**hist, "soundness_pairs_checked": n_sound_checked, "values_in_reflexive_fragment_refl_ok": n_refl_guard,
-                            "accepted_anyfree_pairs": n_accept_anyfree, "pairs_with_strict_derivation_theorem_guard": n_strict, "objects_of_B_tested": n_b_members,
+                            "accepted_anyfree_pairs": n_accept_anyfree, "pairs_with_strict_derivation_theorem_guard": n_strict, "accepted_pairs_without_strict_derivation_by_reason": non_strict, "objects_of_B_tested": n_b_members,
                             "accepted_pairs_with_no_known_object_of_B": n_b_without_member, "lenient_pairs_excluded": lenient, "out_of_fragment": oof, "cases": len(cases)},
         correspondence_mismatches=len(corr),
         oracle_failures_unattributed=len(failing),
@@ -421,6 +476,39 @@ def run(tier: str, replay: str | None = None):
         "coq_makefile + make theories/Properties/C04.vo; coqc theories/Properties/C04.v (Print Assumptions)" + ("; coqchk -o" if tier == "thorough" else ""),
         ["Coq 8.16.1 kernel", "class-table dump harness/classtable.py", "encoder harness/core_enc.py", "correspondence harness/c04.py"],
     )
+
+
+def non_strict_reason(case, clauses):
+    """why an accepted Any-free pair has no strict derivation (first matching class)"""
+    def has(s, pred):
+        if not isinstance(s, list):
+            return False
+        if pred(s):
+            return True
+        return any(has(x, pred) for x in s)
+
+    a, b = case["a"], case["b"]
+    if has([a, b], lambda s: s and s[0] == "alias"):
+        return "type alias"
+    if clauses["bare_generic"] or clauses["variadic_into_fixed"]:
+        return "documented leniency (bare generic / bare type / tuple[X, ...] into fixed tuple)"
+    if has(b, lambda s: s and s[0] == "known" and isinstance(s[1], list) and s[1] and s[1][0] in ("tuple", "list", "set", "frozenset", "dict")):
+        return "container literal on the right (expanded and united before the check)"
+    if has(a, lambda s: s and s[0] == "known" and isinstance(s[1], list) and s[1] and s[1][0] in ("tuple", "list", "set", "frozenset", "dict")):
+        return "container literal on the left"
+    if has([a, b], lambda s: s and s[0] == "newtype"):
+        return "NewType"
+    if has([a, b], lambda s: s and s[0] == "literalstring"):
+        return "LiteralString"
+    if has(a, lambda s: s and s[0] == "seq" and any(f for f, _ in s[2])) or has(b, lambda s: s and s[0] == "seq" and any(f for f, _ in s[2])):
+        return "tuple with an unpacked member"
+    if has(b, lambda s: s and s[0] == "annot") and has(a, lambda s: s and s[0] in ("generic", "seq")):
+        return "Annotated on the right of a generic / tuple"
+    if has(b, lambda s: s and s[0] == "seq") and has(a, lambda s: s and s[0] == "generic"):
+        return "fixed tuple on the right of a generic (through the derived element union)"
+    if has([a, b], lambda s: s and s[0] == "typed" and s[1] in ("type",)) or has([a, b], lambda s: s and s[0] == "subclass" and s[1][0] != "typed"):
+        return "type / type[generic]"
+    return "other (protocol targets, class literals against classes, nested combinations)"
 
 
 def G_has(case, kind):
